@@ -55,7 +55,8 @@ type Case struct {
 	Kind string          `json:"kind"`
 	E    *E              `json:"e"`
 	Ups  []Up            `json:"ups"`
-	Exp  *Exp            `json:"exp"`
+	Exp  *Exp            `json:"-"`
+	ExpR json.RawMessage `json:"exp"`
 	Law  bool            `json:"law"`
 	Raw  json.RawMessage `json:"-"`
 	// series cases
@@ -456,6 +457,13 @@ func main() {
 			os.Exit(2)
 		}
 		c.Raw = append([]byte(nil), line...)
+		if (c.Kind == "" || c.Kind == "expr") && len(c.ExpR) > 0 {
+			c.Exp = &Exp{}
+			if err := json.Unmarshal(c.ExpR, c.Exp); err != nil {
+				fmt.Fprintln(os.Stderr, "bad case:", err)
+				os.Exit(2)
+			}
+		}
 		st.Cases++
 		switch c.Kind {
 		case "", "expr":
